@@ -22,7 +22,8 @@ def enc_result(v):
 
 
 EQUAL_VALUES = [1, True, 1.0, 0, False, 0.0, 2, 2.0, "1", "true", None]
-CAST_STRINGS = ["1", "0", "12", "-3", " 7 ", "+5", "1_0", "true", "TRUE", "False", "false", "abc", "", "1.5", "tru", "x1", "None"]
+CAST_STRINGS = ["1", "0", "12", "-3", " 7 ", "+5", "1_0", "true", "TRUE", "False", "false", "abc", "", "1.5", "tru", "x1", "None",
+                "inf", "-Infinity", " inf ", "1e999", "nan", "3.0", "1e3"]
 
 
 def gen_doc_for_parts(g, parts, leaf=None):
